@@ -335,3 +335,30 @@ CHECKS["C09"] = dict(
     level_text="exploration over generated programs: a few hundred to a thousand generated type pairs per run; every trait-true pair is wire-tested in both directions on generated values. The relation ranges over an unbounded set of pairs; what is decided is the generated sample.",
     level_note="re-encoded bytes are compared modulo entry order when an unordered_map is involved (its iteration order is the container's own); values whose element counts do not fit the other type are skipped as the property states",
     assumptions=[])
+
+
+# ------------------------------------------------------------------ rpc engine (C14)
+def gen_rpc(prop, tier, seed):
+    import rpcgen
+    s = seed if tier == "thorough" else 0
+    d = os.path.join(BUILD, "gen", "rpc-%s-%d" % (tier, s))
+    srcs = rpcgen.generate(d, s, 40 if tier == "thorough" else 12)
+    return d, srcs
+
+
+ENGINE_KIND["rpc"] = "C++ harness (ASan+UBSan): generated interfaces and bindings; deterministic loopback transport with byte accounting + two-thread socketpair transport; handler invocation log; reference decoding of requests and replies"
+CHECKS["C14"] = dict(
+    engine="rpc", flavour="asan", gen=gen_rpc, sources=["engines/rpc/main.cpp"], level="exploration", programs_counter="programs_interfaces",
+    rule=("program = generated interface: 1..8 methods, 0..4 arguments drawn from scalars, strings, containers, structures, variants, optionals, enums (by value and by const reference) with fungible / conforming substitutions at "
+          "the call site (array for vector, unordered_map for map, tuple for pair), returns incl. Result/Optional/containers; NOP_INTERFACE / NOP_INTERFACE32; NOP_METHOD and NOP_METHOD_SEL with adjacent and extreme selectors; "
+          "bindings as free functions, lambdas, functors, const / non-const member functions with (instance, tag) passthrough or none; partial bindings. case (1) = call sequence of length 1..20/50 on a single-threaded loopback "
+          "transport with exact byte accounting: per call the captured request is decoded independently (selector + argument tuple), exactly one handler invocation of the selected method with equal argument value trees and "
+          "the bound passthrough values, Invoke returns the handler's value, the reply is exactly one encoding of it, request and reply fully consumed; unbound methods: InvalidInterfaceMethod, no handler, no reply byte. "
+          "case (2) = raw requests: every bound selector +-1, bit 31/32 flipped, widened / narrowed, extreme and random selectors crossed with argument tuples of every method, plus field-directed corruptions and every "
+          "truncation of valid requests: the reference decoder says whether a handler may run. case (3) = 1..12 calls from a client thread to a server thread over a socketpair through FdReader/FdWriter."),
+    floor={"quick": 3000, "thorough": 100000},
+    require_counters=["c14_calls", "c14_bound_calls_checked", "c14_unbound_calls_checked", "c14_raw_requests_valid", "c14_raw_requests_invalid", "c14_fd_transport_calls", "c14_call_sequences"],
+    technique="handler-invocation log + byte-accounting loopback transport + reference decoding of requests/replies over generated interfaces, under ASan/UBSan",
+    level_text="exploration over generated programs: each generated interface is driven by sampled call sequences, a selector/argument cross product and the hostile-request catalogue; every call is decided exactly from the handler log, the byte counters and an independent decode of both directions.",
+    level_note="the loopback transport is the harness' own (documented Reader/Writer interface); the out-parameter overload of Invoke (no return statement) is not used",
+    assumptions=[])
